@@ -249,8 +249,9 @@ func (en *Engine) verifyUnit(u *UnitInfo) *UnitResult {
 	}
 	x.entry.clk = st.clk
 	// cover: the entry assumptions are satisfiable
-	cov := x.oblige(st, "cover", "cover[entry]", "false", nil)
-	cov.Expect = "sat"
+	if cov := x.oblige(st, "cover", "cover[entry]", "false", nil); cov != nil {
+		cov.Expect = "sat"
+	}
 
 	exit := func(st *State, results []Term) {
 		if st.dead {
@@ -266,8 +267,9 @@ func (en *Engine) verifyUnit(u *UnitInfo) *UnitResult {
 			g := x.cxBool(st, c.Expr, x.entry, binds)
 			lbl := clauseLabel(c, i)
 			x.oblige(st, "ensures", "ensures["+lbl+"]", g, nil)
-			tw := x.oblige(st, "twin", "twin[ensures["+lbl+"]]", sNot(g), nil)
-			tw.Expect = "sat"
+			if tw := x.oblige(st, "twin", "twin[ensures["+lbl+"]]", sNot(g), nil); tw != nil {
+				tw.Expect = "sat"
+			}
 		}
 		for _, ch := range u.Children {
 			if ch.Spec == nil {
@@ -602,8 +604,9 @@ func (h *seqTheory) checkRefines(x *Exec, st *State, q, c string) {
 	x.oblige(st, "refines", "refines[step]", sEq(abs, "(stepOf "+fo+")"), nil)
 	x.oblige(st, "refines", "refines[result]", sEq(st.fields[kGenResult].term, fmt.Sprintf("(resW %s %s)", fo, x.entry.fields[kGenResult].term)), nil)
 	x.oblige(st, "refines", "refines[co]", sImp(sNot(sEq(sr.S, "nilRef")), sEq("(Co "+hn.S+")", c)), nil)
-	tw := x.oblige(st, "twin", "twin[refines]", "false", nil)
-	tw.Expect = "sat"
+	if tw := x.oblige(st, "twin", "twin[refines]", "false", nil); tw != nil {
+		tw.Expect = "sat"
+	}
 }
 
 // ---------------------------------------------------------------- misc
